@@ -82,6 +82,12 @@ func firstLine(s string) string {
 func OracleC23(c Case, obs []StepObs) []Finding {
 	var out []Finding
 	add := func(sig, d string) { out = append(out, Finding{sig, d}) }
+	pol := make([]byte, len(c.Sess))             // import policy in force
+	suspect := make([]map[int]bool, len(c.Sess)) // routes whose last announcement carried a possibly looping ASN / cluster id
+	for i, sc := range c.Sess {
+		pol[i] = sc.Imp
+		suspect[i] = map[int]bool{}
+	}
 	walk(c, obs, func(i int, e Event, prev byte, prevAtt bool, o StepObs, po *StepObs) {
 		if o.Panic != "" || o.Wedged != "" {
 			return
@@ -115,6 +121,53 @@ func OracleC23(c Case, obs []StepObs) []Finding {
 			}
 			if o.Upd > 0 && o.State != 'E' {
 				add("update-counted-in-"+stateName(prev), where)
+			}
+		}
+		// 1b. "attached" is about what the Loc-RIB holds: while Established the Adj-RIB-In has the Loc-RIB as its
+		// client, and every eligible route of the Adj-RIB-In is in the Loc-RIB iff the import policy in force accepts
+		if e.Kind == "ri" {
+			pol[e.Sid] = byte(e.Code)
+		}
+		if e.Kind == "m" && prev == 'E' && o.State == 'E' {
+			switch e.M.Kind {
+			case 'U':
+				for _, r := range e.M.Wd {
+					delete(suspect[e.Sid], r)
+				}
+				for _, r := range e.M.Ann {
+					delete(suspect[e.Sid], r)
+				}
+			case 'A':
+				delete(suspect[e.Sid], e.M.RID)
+			case 'P':
+				suspect[e.Sid][e.M.RID] = true // may legitimately be hidden by loop detection
+			}
+		}
+		if o.State != 'E' {
+			suspect[e.Sid] = map[int]bool{}
+		}
+		if o.State == 'E' && prev == 'E' {
+			cfg := c.Sess[e.Sid]
+			if (cfg.V4 && o.Reg4 != 1) || (cfg.V6 && o.Reg6 != 1) {
+				add("established-but-loc-rib-not-registered-with-adj-rib-in", where+fmt.Sprintf(" clients=%d.%d", o.Reg4, o.Reg6))
+			}
+			accepting := pol[e.Sid] == 'A' || pol[e.Sid] == 'R'
+			for _, r := range o.AdjIn {
+				if suspect[e.Sid][r] {
+					continue
+				}
+				in := false
+				for _, l := range o.Loc {
+					if l == fmt.Sprintf("%d:%d", e.Sid, r) || l == fmt.Sprintf("%d:%d*", e.Sid, r) {
+						in = true
+					}
+				}
+				if accepting && !in {
+					add("established-route-not-in-loc-rib-under-accepting-policy", where+fmt.Sprintf(" route %d policy %c", r, pol[e.Sid]))
+				}
+				if !accepting && in {
+					add("route-in-loc-rib-under-rejecting-policy", where+fmt.Sprintf(" route %d", r))
+				}
 			}
 		}
 		// 3. back to Idle (or destroyed) from OpenSent/OpenConfirm/Established closes the connection
@@ -173,6 +226,10 @@ func (m Msg) validNotification() bool {
 // sessions, other sessions are untouched, and a re-establishment starts empty.
 func OracleC07(c Case, obs []StepObs) []Finding {
 	var out []Finding
+	pol07 := make([]byte, len(c.Sess)) // import policy in force
+	for i, sc := range c.Sess {
+		pol07[i] = sc.Imp
+	}
 	reported := map[string]bool{} // a leftover persists over the following steps: report it where it first shows
 	add := func(sig, d string) {
 		k := sig
@@ -197,6 +254,9 @@ func OracleC07(c Case, obs []StepObs) []Finding {
 			}
 		}
 		cls := exitClass(e)
+		if e.Kind == "ri" {
+			pol07[e.Sid] = byte(e.Code)
+		}
 		if o.State != 'E' {
 			if own > 0 {
 				add("routes-left-in-loc-rib-after-"+cls+"-imp-"+string(c.Sess[e.Sid].Imp), where+" Loc-RIB="+strings.Join(o.Loc, ","))
@@ -276,7 +336,7 @@ func OracleC07(c Case, obs []StepObs) []Finding {
 			if hidden && installed {
 				add("path-with-contributing-"+what+"-installed", where)
 			}
-			if !hidden && !installed && c.Sess[e.Sid].Imp != 'D' && c.Sess[e.Sid].V4 {
+			if !hidden && !installed && (pol07[e.Sid] == 'A' || pol07[e.Sid] == 'R') && c.Sess[e.Sid].V4 {
 				add("path-with-non-contributing-"+what+"-not-installed", where)
 			}
 		}
